@@ -677,7 +677,8 @@ def oracle_c18(res):
     fl = fails(res)
     subs = submits(res)
     for r, st in res["futures_at_shutdown"].items():
-        if st == "pending":
+        rr = int(r)
+        if st == "pending" and rr in subs and subs[rr][1] < ts:
             return f"pending-after-shutdown: request {r} still pending when shutdown returned"
         if st.startswith("exception:") and "Error" not in st.split(":")[1].split(","):
             return f"foreign-exception: request {r} failed with {st}"
@@ -686,6 +687,11 @@ def oracle_c18(res):
             got = fl.get(r, [])
             if [k for (_, k) in got] != ["LibraryShutdown"] or got[0][0] != ev[1]:
                 return f"late-submit: request {r} submitted after shutdown: {got}"
+    for r, st in res["futures"].items():
+        if st.startswith("exception:") and "Error" not in st.split(":")[1].split(","):
+            return f"foreign-exception: request {r} ended with {st}"
+        if st == "pending":
+            return f"hangs: request {r} never completed"
     if info.get("handlers_alive"):
         return f"handlers-alive: server handlers {info['handlers_alive']} not cancelled by shutdown"
     if info.get("second_context") not in (None, "ok"):
